@@ -530,7 +530,7 @@ def ref_resolve(root, level, unit):
     return node[3], new_level
 
 
-def ref_run(tree, handlers, units, cap=None, trailing_sep=False):
+def ref_run(tree, handlers, units, cap=None, trailing_sep=False, terminate=True):
     """-> dict(result, calls, hook, out) for a well-formed message of `units`"""
     hs = {h.hid: h for h in handlers}
     calls = []
@@ -588,7 +588,7 @@ def ref_run(tree, handlers, units, cap=None, trailing_sep=False):
             calls[-1] = (hid, calls[-1][1], tuple(calls[-1][2]))
             return fail("OutOfMemory")
     try:
-        if out:
+        if out and terminate:
             write(b"\n")
     except Full:
         return fail("OutOfMemory")
@@ -807,7 +807,7 @@ def ref_run_raw(tree, handlers, units, cap=None, trailing_sep=False):
     """reference for messages whose last unit may be a Raw one (which fails)"""
     if not units or not isinstance(units[-1], Raw):
         return ref_run(tree, handlers, units, cap, trailing_sep)
-    pre = ref_run(tree, handlers, units[:-1], cap, False)
+    pre = ref_run(tree, handlers, units[:-1], cap, False, terminate=False)
     if pre["result"] != "Ok":
         return pre
     r = units[-1]
@@ -908,6 +908,13 @@ def corpus_abort(tier):
     for units, post in out:
         # the units after the failing one are rendered into the message but must never run
         rows.append((tree, hs, units, None, False, post))
+        # the same against a fixed-capacity buffer that the units before the failing one fill exactly: the failure reported
+        # is still the unit's own, not the buffer's (nothing more is written once a unit has failed - seed C05-J)
+        pre = ref_run(tree, hs, [u for u in units[:-1]], None, False)
+        n = len(pre["out"] or b"") - 1 if pre["result"] == "Ok" and pre["out"] else 0
+        raw_query = isinstance(units[-1], Raw) and b"?" in units[-1].text.split(b" ")[0]     # its `;` would not fit: another story
+        if n > 0 and not raw_query:
+            rows.append((tree, hs, units, n, False, post))
     # all-good messages: every unit once, in order
     for rot in range(len(ok_units)):
         rows.append((tree, hs, [ok_units[(rot + i) % len(ok_units)] for i in range(4)], None, False, []))
